@@ -95,6 +95,7 @@ func checkC18(c *Check) {
 			}
 			w.OnReturn = func(w *walker, st *wstate, ret *ssa.Return, rs []*absVal) { outs = append(outs, rs[0].String()) }
 			w.Run()
+			outs = uniqStrings(outs)
 			want := "false"
 			if k >= 0 {
 				want = "true"
@@ -152,6 +153,7 @@ func checkC18(c *Check) {
 				}
 			}
 			w.Run()
+			outs = uniqStrings(outs)
 			want := "«refuse(sameArg=true)»"
 			if accept {
 				want = "TraceAllow"
@@ -188,6 +190,7 @@ func checkC18(c *Check) {
 				}
 			}
 			w.Run()
+			outs = uniqStrings(outs)
 			want := "TraceKill"
 			if soft {
 				want = "TraceBan"
@@ -290,6 +293,7 @@ func checkC18(c *Check) {
 				}
 			}
 			w.Run()
+			outs = uniqStrings(outs)
 			c.Cond(len(outs) == 1 && outs[0] == t.want, "3/counter", fmt.Sprintf("%s.CheckSyscall:inside=%v,allow=%v", fh, t.inside, t.allow), p.Pos(cs.Pos()), "→ "+t.want, fmt.Sprintf("yields %v, want %s", outs, t.want))
 		}
 	}
@@ -445,4 +449,17 @@ func strictPrefixHelper(fn *ssa.Function) bool {
 		}
 	}
 	return hasLast && hasSlice && hasEmpty
+}
+
+// uniqStrings removes duplicates, keeping first occurrences (several explored paths with the same outcome).
+func uniqStrings(xs []string) []string {
+	seen := map[string]bool{}
+	var out []string
+	for _, x := range xs {
+		if !seen[x] {
+			seen[x] = true
+			out = append(out, x)
+		}
+	}
+	return out
 }
